@@ -415,8 +415,9 @@ Definition pkg_ctor_status (ctx : schemas) (p : string) : cres unit :=
   end.
 
 (* ---------- front-ends: what lands in Type.Default ---------- *)
-(* jsonschema: santhosh-tekuri decodes with UseNumber -> json.Number, copied as is (walkString/Bool/Number/List);
-               walkEnum, walkObject, walkOneOf/AnyOf, walkRef do not look at `default`
+(* jsonschema: santhosh-tekuri decodes with UseNumber -> json.Number; walkNumber unwraps it (fix 83e7cb1),
+               walkList copies the list with its json.Number elements; walkEnum, walkObject, walkOneOf/AnyOf,
+               walkRef do not look at `default`
    openapi   : kin-openapi decodes into float64 / string / bool / []any / map[string]any; walkObject and
                walkDisjunctions do not look at `default`
    cue       : cueConcreteToScalar: int64 / float64 / string / bool / []any / map[string]any *)
@@ -439,7 +440,8 @@ Definition dec_text (m e : Z) : string :=
     let n := (List.length ds' - k)%nat in
     list_str (sign ++ firstn n ds' ++ "."%char :: skipn n ds')%list.
 
-Fixpoint fe_value (fmt : string) (numtext : Z -> Z -> string) (j : json) : dyn :=
+(* values nested inside a list / map default are copied as the decoder delivered them *)
+Fixpoint fe_elem (fmt : string) (numtext : Z -> Z -> string) (j : json) : dyn :=
   match j with
   | JNull => DNil
   | JBool b => DBool b
@@ -450,10 +452,21 @@ Fixpoint fe_value (fmt : string) (numtext : Z -> Z -> string) (j : json) : dyn :
       else if Z.eqb e 0 then DInt "int64" m else DFloat "float64" (numtext m e)
   | JArr l => match l with
               | [] => if seqb fmt "cue" then DNil else DList []
-              | _ => DList (map (fe_value fmt numtext) l)
+              | _ => DList (map (fe_elem fmt numtext) l)
               end
   | JObj ms =>
-      DMap (fold_left (fun acc kv => alist_set acc (fst kv) (fe_value fmt numtext (snd kv))) ms [])
+      DMap (fold_left (fun acc kv => alist_set acc (fst kv) (fe_elem fmt numtext (snd kv))) ms [])
+  end.
+
+(* the default of a field.  JSON Schema: walkNumber unwraps the json.Number of a numeric default
+   (unwrapJSONNumber: int64 when the literal is an integer, else float64); the elements of a list default
+   are NOT unwrapped. *)
+Definition fe_value (fmt : string) (numtext : Z -> Z -> string) (j : json) : dyn :=
+  match j with
+  | JNum m e =>
+      if seqb fmt "jsonschema" then (if Z.eqb e 0 then DInt "int64" m else DFloat "float64" (numtext m e))
+      else fe_elem fmt numtext j
+  | _ => fe_elem fmt numtext j
   end.
 
 (* the kinds of declaration the generators produce (gen/ctorgen.py dkind) *)
